@@ -141,8 +141,8 @@ every sample near `q` (`CoverTree.Near`: no `K0 = k+1` distinct samples are all 
 Ingredients: the `upper_bound` array is justified at every step, every pruning decision is sound, the traversal
 loses no node (live-set invariant through `descend`, the copy loops and the recursion).  The theorem is about
 answers (`= some res`); that the fuel of the model suffices is not proved (the driver never saw `mq=fuel`).
-`batch_create` and `halfsort` are not modelled (well-formedness is a per-run certificate; `halfsort` only
-reorders a cover set and the theorem holds for the unsorted traversal of the model).  For the copy bound with
+`batch_create` is not modelled (well-formedness is a per-run certificate); `halfsort` is a parameter of the
+model and the theorems hold for every `hsort` returning a permutation of its argument.  For the copy bound with
 `query_chi->max_dist` counted once — the code before the repair — the statement is refuted below. -/
 
 namespace CoverQuery
@@ -212,23 +212,25 @@ end
     sample near `q`. -/
 theorem cover_query_exact {K : Type} [LinearOrder K] [AddCommGroup K] [IsOrderedAddMonoid K] {δ : Nat → Nat → K}
     (hm : IsMetric δ) {K0 : Nat} (hK : 1 ≤ K0) {N : Nat} (leafScale : Nat) {top : CNode K}
+    {hsort : List (DN K) → List (DN K)} (hperm : ∀ l, (hsort l).Perm l)
     (hwf : wfTree δ N top = true) (htopc : top.children ≠ []) {res : List (List Nat)}
-    (h : batchQuery δ K0 leafScale top = some res) :
+    (h : batchQuery δ hsort K0 leafScale top = some res) :
     (∀ r ∈ res, ∃ q ∈ top.leaves, ∃ cands, r = q :: cands ∧
         (∀ c, Near δ (List.range N) K0 q c → c ∈ cands) ∧ cands.Nodup ∧ ∀ c ∈ cands, c ∈ List.range N) ∧
       ∀ q ∈ top.leaves, ∃ r ∈ res, r.head? = some q :=
-  batchQuery_good hm hK leafScale hwf htopc h
+  batchQuery_good hm hK leafScale hperm hwf htopc h
 
 /-- **`cover_tree_exact`** : the cover-tree neighbour search is exact — for every well-formed tree, every metric,
     every `k < N`, every result of the batch query and every `partial_sort` outcome of the wrapper, the list
     returned for sample `q` is the exact k-NN list of `q`. -/
 theorem cover_tree_exact {K : Type} [LinearOrder K] [AddCommGroup K] [IsOrderedAddMonoid K] {δ : Nat → Nat → K}
     (hm : IsMetric δ) {k N : Nat} (hk : k < N) (leafScale : Nat) {top : CNode K}
+    {hsort : List (DN K) → List (DN K)} (hperm : ∀ l, (hsort l).Perm l)
     (hwf : wfTree δ N top = true) (htopc : top.children ≠ []) {res : List (List Nat)}
-    (h : batchQuery δ (k + 1) leafScale top = some res) {q : Nat} {cands l : List Nat} (hr : q :: cands ∈ res)
+    (h : batchQuery δ hsort (k + 1) leafScale top = some res) {q : Nat} {cands l : List Nat} (hr : q :: cands ∈ res)
     {lt : K × Nat → K × Nat → Bool} (hlt : ∀ a b : K × Nat, lt b a = false → a.1 ≤ b.1)
     (hl : CoverOut δ lt q k cands l) : IsExactKnn δ (List.range N) k q l := by
-  have hg := batchQuery_good hm (by omega : 1 ≤ k + 1) leafScale hwf htopc h
+  have hg := batchQuery_good hm (by omega : 1 ≤ k + 1) leafScale hperm hwf htopc h
   obtain ⟨q', hq', cands', heq, hgc⟩ := hg.1 _ hr
   simp only [List.cons.injEq] at heq
   obtain ⟨rfl, rfl⟩ := heq
